@@ -113,7 +113,7 @@ Definition no_wrap (x : Z) : Prop := 0 <= x < 2 ^ 63.
 (* Remove(iter): count - 1, version + 1, and the returned iterator is pvMakeIterator(key, THE SAME valueIndex, move = TRUE):
    it is moved on to the next pair when the hole was the key's last value (C08_remove_returns_rest_of_traversal then says
    where that is) -- this is the statement the seeded change `move = keyEmptied` violates *)
-Theorem gen_remove_iter (null : bool) cnt ver ri rm idx : no_wrap (cnt - 1) -> no_wrap ver ->
+Theorem gen_remove_iter cnt ver ri rm idx : no_wrap (cnt - 1) -> no_wrap ver ->
   Gen_HashMultiMap.Remove_iter cnt ver ri rm idx = (cnt - 1, ver + 1, idx, true).
 Proof.
   intros [A1 A2] [B1 B2]. unfold Gen_HashMultiMap.Remove_iter.
@@ -167,7 +167,7 @@ Proof.
       pose proof (sumlen_nonneg r). destruct (ekey a =? k).
       - inversion F; subst. unfold elen. lia.
       - specialize (IH F). unfold elen. lia. }
-    rewrite (gen_remove_iter false) by (unfold no_wrap in *; try lia; auto).
+    rewrite gen_remove_iter by (unfold no_wrap in *; try lia; auto).
     unfold vstep1, vlive, vver. simpl. rewrite F. destruct (Nat.ltb_spec i (length (evals e))); [|lia]. reflexivity.
   - intros k e F.
     assert (0 <= elen e <= n).
